@@ -13,7 +13,8 @@ UNDECIDED = ["the value of the estimates for genuinely Gaussian weights exp(-chi
              "'estimates change by no more than the left-out weight share' for non-degenerate weights"]
 
 DS = {1: [np.array([[1.0]]), np.array([[4.0]])],
-      2: [np.eye(2), np.diag([1.0, 4.0]), np.array([[2.0, 1.0], [1.0, 2.0]])]}
+      2: [np.eye(2), np.diag([1.0, 4.0]), np.array([[2.0, 1.0], [1.0, 2.0]]), np.array([[5.0, 2.0], [2.0, 2.0]])]}
+X2S = [0.5, 2.0, 5.0]
 
 
 def replay(col, item):
@@ -93,6 +94,41 @@ def replay(col, item):
                 if np.any(np.diff(q) < -1e-12) or q.min() < exp["lo"] - 1e-12 or q.max() > exp["hi"] + 1e-12:
                     col.violation("quantiles-not-monotone-or-out-of-range", dict(rep, concrete=conf, expected=[exp["lo"], exp["hi"]],
                                                                                   observed=q.tolist()))
+    # x2_max may only leave out entries whose chi-square exceeds it: with S = D (weights of order one) the candidate
+    # window of weights() must contain every entry TLC lists (chi-square computed exactly over the rationals)
+    from collections import Counter
+    for d, Dm in enumerate(DS[m]):
+        for q, x2 in enumerate(X2S):
+            must = case["must"][d][q]
+            try:
+                b = BMCI(y.copy(), x.copy(), Dm)
+                i_l, i_u, _ = b.weights(yobs[0].copy(), x2)
+                kept = Counter((tuple(r), float(v)) for r, v in zip(np.asarray(b.y[i_l:i_u]).tolist(), np.asarray(b.x[i_l:i_u]).ravel().tolist()))
+            except Exception as ex:
+                col.violation("weights-raises-" + type(ex).__name__, {"abstract": {"db": db, "y": case["y"], "D": Dm.tolist(), "x2_max": x2},
+                                                                      "observed": repr(ex)[:200]})
+                continue
+            col.count(1)
+            need = Counter((tuple(float(v) for v in db[i - 1][0]), float(db[i - 1][1])) for i in must)
+            if any(kept[k] < n_ for k, n_ in need.items()):
+                col.violation("x2max-window-drops-entry-within-chi2" + ("-correlated" if d >= 2 else ""),
+                              {"abstract": {"db": db, "y": case["y"], "D": Dm.tolist(), "x2_max": x2, "must_keep": must},
+                               "observed": {"window": [i_l, i_u], "kept": [list(k[0]) + [k[1]] for k in kept]}})
+    # large constant offset in x (exact in binary): the spread must not be lost to cancellation (spike regime: weights are 0/1)
+    if not case["spike"]["empty"]:
+        off = 2.0 ** 26
+        try:
+            b = BMCI(y.copy(), x.copy() + off, DS[m][0] * 1e-6)
+            with np.errstate(all="ignore"):
+                mean, std = b.predict(yobs.copy())
+            col.count(1)
+            # the mean is judged relative to its own magnitude (one ulp at 2^26 is 1.5e-8), the spread must be exact to 1e-6
+            if not close(mean[0], off + fl(case["spike"]["mean"]), 1e-12) or abs(std[0] ** 2 - fl(case["spike"]["var"])) > 1e-6:
+                col.violation("predict-loses-precision-with-offset", {"abstract": {"db": db, "y": case["y"], "x_offset": off},
+                                                                      "expected": [fl(case["spike"]["mean"]), fl(case["spike"]["var"])],
+                                                                      "observed": [float(mean[0] - off), float(std[0] ** 2)]})
+        except Exception as ex:
+            col.violation("predict-raises-" + type(ex).__name__, {"abstract": {"db": db, "x_offset": off}, "observed": repr(ex)[:200]})
     if len({e[1] for e in db}) < len(db) or case["spike"]["empty"] or len(db) >= 3:
         col.nontrivial.add(json.dumps([db, case["y"]]))
 
